@@ -637,12 +637,14 @@ fn twin_positions(src: &str, rng: &mut Rng, cap: usize) -> Vec<(u32, u32)> {
     offs.into_iter().map(|o| line_col_of(src, o)).collect()
 }
 
-fn collect_tast(file: &tast::File) -> Vec<(u32, u32, &'static str, String)> {
-    fn pat(p: &tast::Pat, out: &mut Vec<(u32, u32, &'static str, String)>) {
+/// (start, end, node kind, type, name as the TAST spells it) of every variable, binder and closure parameter that
+/// carries a source pointer
+pub(crate) fn collect_tast(file: &tast::File) -> Vec<(u32, u32, &'static str, String, String)> {
+    fn pat(p: &tast::Pat, out: &mut Vec<(u32, u32, &'static str, String, String)>) {
         match p {
-            tast::Pat::PVar { ty, astptr: Some(ptr), .. } => {
+            tast::Pat::PVar { name, ty, astptr: Some(ptr) } => {
                 let r = ptr.text_range();
-                out.push((r.start().into(), r.end().into(), "binder", ty.to_pretty(80)));
+                out.push((r.start().into(), r.end().into(), "binder", ty.to_pretty(80), name.clone()));
             }
             tast::Pat::PConstr { args, .. } => args.iter().for_each(|a| pat(a, out)),
             tast::Pat::PTuple { items, .. } => items.iter().for_each(|a| pat(a, out)),
@@ -677,11 +679,12 @@ fn collect_tast(file: &tast::File) -> Vec<(u32, u32, &'static str, String)> {
         }
     }
     fn expr(e: &tast::Expr, out: &mut Vec<(u32, u32, &'static str, String)>) {
+    fn expr(e: &tast::Expr, out: &mut Vec<(u32, u32, &'static str, String, String)>) {
         use tast::Expr::*;
         match e {
-            EVar { ty, astptr: Some(ptr), .. } => {
+            EVar { name, ty, astptr: Some(ptr) } => {
                 let r = ptr.text_range();
-                out.push((r.start().into(), r.end().into(), "var", ty.to_pretty(80)));
+                out.push((r.start().into(), r.end().into(), "var", ty.to_pretty(80), name.clone()));
             }
             EVar { .. } | EPrim { .. } | ETraitMethod { .. } | EDynTraitMethod { .. } | EInherentMethod { .. } => {}
             EConstr { args, .. } => args.iter().for_each(|a| expr(a, out)),
@@ -690,7 +693,7 @@ fn collect_tast(file: &tast::File) -> Vec<(u32, u32, &'static str, String)> {
                 for p in params {
                     if let Some(ptr) = &p.astptr {
                         let r = ptr.text_range();
-                        out.push((r.start().into(), r.end().into(), "closure-param", p.ty.to_pretty(80)));
+                        out.push((r.start().into(), r.end().into(), "closure-param", p.ty.to_pretty(80), p.name.clone()));
                     }
                 }
                 expr(body, out)
@@ -1147,6 +1150,7 @@ fn run_text(th: usize, ti: usize, t: &Text, dir: &Path, watch: &Watch, sh: &Shar
                     }
                     continue;
                 }
+            for (s, e, kind, ty, _name) in collect_tast(&comp.tast) {
                 if (e as usize) > src.len() || !seen.insert((s, e)) {
                     continue;
                 }
